@@ -283,6 +283,8 @@ func (x *Exec) step(st *State, fr *Frame, ins ssa.Instruction) ([]*State, bool) 
 	return nil, false
 }
 
+var rtSweepAll = os.Getenv("GOCV_RTSWEEP") != "" // development: try "indexsafe" on every function under contract
+
 // runtimeCheck: a condition whose failure is a runtime panic.
 func (x *Exec) runtimeCheck(st *State, what string, ok *Term, ins ssa.Instruction) {
 	if ok.IsTrue() {
@@ -291,6 +293,10 @@ func (x *Exec) runtimeCheck(st *State, what string, ok *Term, ins ssa.Instructio
 	if x.vc.trackPanics && len(st.frames) >= 1 {
 		// the failing branch is a panic: with panics_if/iff/nopanic clauses it must be justified
 		x.panicObligation(st, "safe."+what, ok, x.prog.Fset.Position(ins.Pos()).String())
+	} else if (x.vc.spec.IndexSafe || rtSweepAll) && what != "typeassert" && len(st.frames) >= 1 {
+		// "indexsafe": runtime errors nobody intends (index / slice bounds, negative make, integer division by zero, write to
+		// a nil map) are excluded even where the contract says nothing else about panics
+		x.oblige(st, "rt."+what, "", nil, ok, x.prog.Fset.Position(ins.Pos()).String())
 	}
 	st.assume(ok)
 }
